@@ -3,7 +3,7 @@
    counter, the collected entries and the number of headers still to come. *)
 From Coq Require Import List NArith ZArith Bool Lia Arith String.
 Import ListNotations.
-Require Import Xhtml Exp Proc1 Proc2 Proc3 Ctl Loop Eqd Tok Inv EqF InvI TocStr Hdr FragB.
+Require Import Xhtml Exp Proc1 Proc2 Proc3 Ctl Loop Eqd Tok Inv EqF InvI TocStr Hdr FragB Epub Multi.
 Open Scope N_scope.
 Arguments run : simpl never.
 Arguments rev : simpl never.
@@ -20,9 +20,10 @@ Definition in_fragH (b : block) : Prop :=
 Section WithBase.
 (* the elements open around the body ([] for a fragment, [body; html] for a complete document) *)
 Variable BASE : list str.
+Variable MD : nat.
 Local Notation Inv := (@Inv.Inv BASE).
-Local Notation P K := (FragB.P K BASE).
-Local Notation Side K := (FragB.Side K BASE).
+Local Notation P K := (FragB.P K BASE MD).
+Local Notation Side K := (FragB.Side K BASE MD).
 Definition KS (s : st) : tocinfo * list lox := (toc s, lox_toc s).
 Definition Q (p : bool) (N : nat) (rest : list block) (s : st) : Prop :=
   P (KS s) p s /\ Forall entry_ok (lox_toc s) /\
@@ -32,20 +33,21 @@ Definition Q (p : bool) (N : nat) (rest : list block) (s : st) : Prop :=
 Lemma Side_change K K' s s' : Side K s -> mtags s' = mtags s -> inl s' = inl s -> asis s' = asis s -> ifdepth s' = ifdepth s -> udef s' = udef s ->
   umacros s' = umacros s -> bf s' = bf s -> dtags s' = dtags s -> verse s' = verse s -> format s' = format s -> mode s' = mode s ->
   panicked s' = panicked s -> ivars s' = ivars s -> params s' = params s -> toc s' = fst K' -> lox_toc s' = snd K' ->
-  lox_lof s' = lox_lof s -> lox_lot s' = lox_lot s -> lox_lop s' = lox_lop s -> Side K' s'.
-Proof. intros [A1 A3 A4 A5 A6 A7 A8 A9 A10 A11 A12 A13 A14 A15 A16 A17 A18 A19 A20] E1 E3 E4 E5 E6 E7 E8 E9 E10 E11 E12 E13 E14 E15 E16 E17 E18 E19 E20.
-  split; try congruence; try (unfold fmt in *; rewrite E11; exact A11); try (rewrite E1; exact A1). Qed.
+  lox_lof s' = lox_lof s -> lox_lot s' = lox_lot s -> lox_lop s' = lox_lop s ->
+  files s' = files s -> navtext s' = navtext s -> lox_nav s' = lox_nav s -> Side K' s'.
+Proof. intros [A1 A3 A4 A5 A6 A7 A8 A9 A10 A11 A12 A13 A14 A15 A16 A17 A18 A19 A20 A21 A22 A23] E1 E3 E4 E5 E6 E7 E8 E9 E10 E11 E12 E13 E14 E15 E16 E17 E18 E19 E20 E21 E22 E23.
+  split; try congruence; try (unfold fmt in *; rewrite E11; exact A11); try (rewrite E1; exact A1); try (rewrite E12; exact A12). Qed.
 Lemma P_change K K' p s s' : P K p s -> Side K' s' -> sblock s' = sblock s -> process s' = process s ->
   out s' = out s -> view s' = view s -> buf s' = buf s -> format s' = format s -> P K' p s'.
 Proof. intros (HS & Hsb & Hpr & HI) HS' E1 E2 Eo Ev Eb Ef. split; [exact HS'|]. split; [rewrite E1; exact Hsb|]. split; [rewrite E2; exact Hpr|].
   intro Hp. apply (Inv_regs BASE s); [exact Eo|exact Ev|exact Eb|exact Ef|exact (HI Hp)]. Qed.
 Lemma P_K_eq K K' p s : P K p s -> K' = K -> P K' p s. Proof. intros H ->. exact H. Qed.
 Lemma P_toc K p s : P K p s -> toc s = fst K /\ lox_toc s = snd K.
-Proof. intros (HS & _). split; [exact (sd_toc _ _ _ HS)|exact (sd_lox _ _ _ HS)]. Qed.
+Proof. intros (HS & _). split; [exact (sd_toc _ _ _ _ HS)|exact (sd_lox _ _ _ _ HS)]. Qed.
 
 (* the option parse of a header line does not depend on the pass *)
 Lemma hdr_args_agree K p s a : P K p s -> po_args (fst (parse_opts specOptHeader a s)) = po_args (fst (parse_opts specOptHeader a init_st)).
-Proof. intros (HS & _). f_equal. apply parse_opts_iv. rewrite (sd_iv _ _ _ HS). reflexivity. Qed.
+Proof. intros (HS & _). f_equal. apply parse_opts_iv. rewrite (sd_iv _ _ _ _ HS). reflexivity. Qed.
 
 Lemma hcount_update m nonum t : hcount (update_headers m nonum t) = S (hcount t).
 Proof. unfold update_headers. cbv zeta. repeat (match goal with |- context [if ?c then _ else _] => destruct c end); reflexivity. Qed.
@@ -71,7 +73,7 @@ Proof. intros Hn Hmac Harg Hc (HP & Hok & Hcnt). pose proof HP as (HS & Hsb & Hp
   pose proof (hdr_args_agree _ _ s a HP) as Hagree.
   pose proof (parse_opts_eqd specOptHeader (args s) s) as E1. rewrite <- Harg in Hagree.
   destruct (parse_opts specOptHeader (args s) s) as [o s1]. cbn [fst snd] in *.
-  pose proof (P_eqd _ _ _ _ _ E1 HP) as HP1.
+  pose proof (P_eqd _ _ _ _ _ _ E1 HP) as HP1.
   assert (Hm1 : macro s1 = n) by (rewrite (eqd_get macro _ _ (fun _ => eq_refl) E1); exact Hmac).
   assert (Hpr1 : process s1 = true) by (apply HP1). rewrite Hpr1, Hm1.
   assert (Hk1 : KS s1 = KS s) by (unfold KS; rewrite (eqd_get toc _ _ (fun _ => eq_refl) E1), (eqd_get lox_toc _ _ (fun _ => eq_refl) E1); reflexivity).
@@ -82,15 +84,15 @@ Proof. intros Hn Hmac Harg Hc (HP & Hok & Hcnt). pose proof HP as (HS & Hsb & Hp
     assert (E : err "arguments required" s1 ~~ s) by (eapply eqd_trans; [apply err_eqd|exact E1]).
     assert (Hk : KS (err "arguments required" s1) = KS s) by (unfold KS; rewrite (eqd_get toc _ _ (fun _ => eq_refl) E), (eqd_get lox_toc _ _ (fun _ => eq_refl) E); reflexivity).
     split; [|apply (eqd_get lox_toc _ _ (fun _ => eq_refl) E)].
-    split; [rewrite Hk; apply (P_eqd _ _ _ _ _ E HP)|]. rewrite (eqd_get lox_toc _ _ (fun _ => eq_refl) E), (eqd_get toc _ _ (fun _ => eq_refl) E). split; [exact Hok|exact Hcnt].
+    split; [rewrite Hk; apply (P_eqd _ _ _ _ _ _ E HP)|]. rewrite (eqd_get lox_toc _ _ (fun _ => eq_refl) E), (eqd_get toc _ _ (fun _ => eq_refl) E). split; [exact Hok|exact Hcnt].
   - (* close what is open, then the header element *)
     set (nonum := flag "nonum" o).
-    destruct (close_unclosed_inline_P _ _ _ HP1) as [HPa Hsia].
-    destruct (close_unclosed_block_P _ _ _ HPa) as (HPb & _ & Hsib & Hhcb & Hsbb). specialize (Hsib Hsia).
-    destruct (end_par_P _ _ _ HPb Hsib) as (HP2 & Hp2 & Hsi2 & F2). cbv zeta in HP2, Hp2, Hsi2, F2.
+    destruct (close_unclosed_inline_P _ _ _ _ HP1) as [HPa Hsia].
+    destruct (close_unclosed_block_P _ _ _ _ HPa) as (HPb & _ & Hsib & Hhcb & Hsbb). specialize (Hsib Hsia).
+    destruct (end_par_P _ _ _ _ HPb Hsib) as (HP2 & Hp2 & Hsi2 & F2). cbv zeta in HP2, Hp2, Hsi2, F2.
     assert (Hc2 : has_cur (end_par PNormal (close_unclosed_block (close_unclosed_inline s1))) = true).
     { rewrite (eqf_get has_cur _ _ (fun _ => eq_refl) F2), Hhcb.
-      rewrite (eqf_get has_cur _ _ (fun _ => eq_refl) (close_unclosed_inline_eqf _ (sd_fmt _ _ _ (proj1 HP1)) (sd_mk _ _ _ (proj1 HP1)))), (eqd_get has_cur _ _ (fun _ => eq_refl) E1). exact Hc. }
+      rewrite (eqf_get has_cur _ _ (fun _ => eq_refl) (close_unclosed_inline_eqf _ (sd_fmt _ _ _ _ (proj1 HP1)) (sd_mk _ _ _ _ (proj1 HP1)))), (eqd_get has_cur _ _ (fun _ => eq_refl) E1). exact Hc. }
     set (s2 := end_par PNormal (close_unclosed_block (close_unclosed_inline s1))) in *. clearbody s2.
     assert (Hsb2 : sblock s2 = []) by (rewrite (eqf_get sblock _ _ (fun _ => eq_refl) F2); exact Hsbb).
     pose proof HP2 as (HS2 & _ & Hpr2 & HI2). specialize (HI2 eq_refl).
@@ -102,22 +104,35 @@ Proof. intros Hn Hmac Harg Hc (HP & Hok & Hcnt). pose proof HP as (HS & Hsb & Hp
     assert (HP3 : P K3 true s3) by (apply (P_change _ K3 true s2 s3 HP2 HS3); reflexivity).
     assert (Hc3 : has_cur s3 = true) by exact Hc2.
     (* the title *)
-    destruct (pim_spec (a0 :: al) s3 (sd_fmt _ _ _ HS3) (sd_asis _ _ _ HS3) (sd_inl _ _ _ HS3) (sd_mk _ _ _ HS3) (sd_bf _ _ _ HS3) Hc3) as (Ht & F4 & Ho4 & Hv4 & Hb4).
+    destruct (pim_spec (a0 :: al) s3 (sd_fmt _ _ _ _ HS3) (sd_asis _ _ _ _ HS3) (sd_inl _ _ _ _ HS3) (sd_mk _ _ _ _ HS3) (sd_bf _ _ _ _ HS3) Hc3) as (Ht & F4 & Ho4 & Hv4 & Hb4).
     destruct (pim (a0 :: al) s3) as [title s4]. cbn [fst snd] in *.
-    assert (HP4 : P K3 true s4) by (apply (P_same K3 BASE true s4 s3 F4 Ho4 Hv4 Hb4 HP3)).
+    assert (HP4 : P K3 true s4) by (apply (P_same K3 BASE MD true s4 s3 F4 Ho4 Hv4 Hb4 HP3)).
     pose proof (opt_text_eqd "id" o s4) as E5. destruct (opt_text "id" o s4) as [idx s5]. cbn [snd] in E5.
-    pose proof (P_eqd _ _ _ _ _ E5 HP4) as HP5.
-    set (s7 := if str_eqb n (R "Ch") || str_eqb n (R "Pt") then s5 <| cidx := idx |> <| cid := idx |> else s5 <| cidx := idx |>).
-    assert (HP7 : P K3 true s7 /\ has_cur s7 = true /\ view s7 = view s2).
+    pose proof (P_eqd _ _ _ _ _ _ E5 HP4) as HP5.
+    set (s7o := if str_eqb n (R "Ch") || str_eqb n (R "Pt") then s5 <| cidx := idx |> <| cid := idx |> else s5 <| cidx := idx |>).
+    assert (HP7o : P K3 true s7o /\ has_cur s7o = true /\ view s7o = view s2).
     { assert (Hc5 : has_cur s5 = true) by (rewrite (eqd_get has_cur _ _ (fun _ => eq_refl) E5), (eqf_get has_cur _ _ (fun _ => eq_refl) F4); exact Hc3).
       assert (Hv5 : view s5 = view s2) by (rewrite (view_eqd _ _ E5), Hv4; reflexivity).
-      unfold s7. destruct (str_eqb n (R "Ch") || str_eqb n (R "Pt")); (split; [|split; [exact Hc5|exact Hv5]]);
-      (eapply (P_change K3 K3 true s5); [exact HP5|apply (Side_change K3 K3 s5 _ (proj1 HP5)); try reflexivity; [exact (sd_toc _ _ _ (proj1 HP5))|exact (sd_lox _ _ _ (proj1 HP5))]|reflexivity..]). }
-    destruct HP7 as (HP7 & Hc7 & Hv7).
+      unfold s7o. destruct (str_eqb n (R "Ch") || str_eqb n (R "Pt")); (split; [|split; [exact Hc5|exact Hv5]]);
+      (eapply (P_change K3 K3 true s5); [exact HP5|apply (Side_change K3 K3 s5 _ (proj1 HP5)); try reflexivity; [exact (sd_toc _ _ _ _ (proj1 HP5))|exact (sd_lox _ _ _ _ (proj1 HP5))]|reflexivity..]). }
+    destruct HP7o as (HP7o & Hc7o & Hv7o).
     change (let s6 := s5 <| cidx := idx |> in
             let s7 := if str_eqb n (R "Ch") || str_eqb n (R "Pt") then s6 <| cid := idx |> else s6 in
             let s8 := w title (begin_header n (negb nonum) title s7) in end_header n (negb nonum) title (close_unclosed_inline s8))
-      with (end_header n (negb nonum) title (close_unclosed_inline (w title (begin_header n (negb nonum) title s7)))).
+      with (end_header n (negb nonum) title (close_unclosed_inline (w title (begin_header n (negb nonum) title s7o)))).
+    clearbody s7o.
+    (* multi-file mode: a part or a chapter starts a new file *)
+    unfold begin_header. rewrite (sd_fmt _ _ _ _ (proj1 HP7o)). unfold X.begin_header. cbv zeta.
+    match goal with |- context [if X.multi s7o && ?c then ?a else ?b] => set (s7 := if X.multi s7o && c then a else b) end.
+    assert (HP7 : P K3 true s7 /\ has_cur s7 = true /\ view s7 = view s2).
+    { unfold s7. destruct (X.multi s7o && _) eqn:Emf; [|split; [exact HP7o|split; [exact Hc7o|exact Hv7o]]].
+      apply andb_true_iff in Emf as [Emf _]. rewrite (proj1 (Side_multi _ _ _ _ (proj1 HP7o))) in Emf. apply Nat.eqb_eq in Emf.
+      pose proof HP7o as (HSo & Hsbo & Hpro & HIo). specialize (HIo eq_refl).
+      assert (Hpo : par s7o = false) by (rewrite <- Hp2; exact (f_equal (fun v => fst (fst (fst (snd v)))) Hv7o)).
+      assert (Hel : elems s7o = []) by (unfold elems; rewrite Hv7o; unfold view, elems_v; rewrite Hsb2, Hp2; reflexivity).
+      destruct (file_change_spec K3 BASE MD title s7o HSo Emf HIo Hpo Hel Ht) as (A & B & C & D & E & F).
+      split; [split; [exact A|split; [rewrite D; exact Hsbo|split; [rewrite E; exact Hpro|intros _; exact B]]]|split; [rewrite F; exact Hc7o|rewrite C; exact Hv7o]]. }
+    destruct HP7 as (HP7 & Hc7 & Hv7).
     clearbody s7. pose proof HP7 as (HS7 & Hsb7 & Hpr7 & HI7). specialize (HI7 eq_refl).
     destruct (P_toc _ _ _ HP7) as [Ht7 Hl7]. cbn [fst snd K3] in Ht7, Hl7.
     (* the entry recorded by pass 1 *)
@@ -127,22 +142,21 @@ Proof. intros Hn Hmac Harg Hc (HP & Hok & Hcnt). pose proof HP as (HS & Hsb & Hp
       destruct (nth_error (lox_toc s) (hcount (toc s))) as [e|] eqn:En; [|apply nth_error_None in En; cbn [plus] in Hcnt; clear -En Hcnt; lia].
       exists e. split; [reflexivity|]. rewrite Forall_forall in Hok. apply Hok. apply (nth_error_In _ _ En). }
     destruct Hidx as (e & En & [Her Het Hen]).
-    assert (Hmulti : X.multi s7 = false) by exact (proj1 (Side_multi _ _ _ HS7)).
-    assert (Hcust : X.custom_ids s7 = false) by (unfold X.custom_ids; rewrite (sd_pa _ _ _ HS7); reflexivity).
-    unfold begin_header. rewrite (sd_fmt _ _ _ HS7). unfold X.begin_header. rewrite Hmulti. cbn [andb]. rewrite En, Hh7. cbn [Nat.eqb].
-    unfold X.get_id. rewrite Hmulti, Hcust. cbn [negb andb].
+    assert (Hcust : X.custom_ids s7 = false) by (apply custom_ids_default; exact (sd_pa _ _ _ _ HS7)).
+    rewrite En, Hh7. cbn [Nat.eqb].
+    pose proof (get_id_no_gt s7 e Hcust Her) as Hgid. set (gid := X.get_id s7 e) in *. clearbody gid.
     set (L := level_str (toc s7) n).
     set (num := if negb nonum then lx_num e ++ R " " else []).
     assert (Hnum : textual num) by (unfold num; destruct (negb nonum); [apply textual_app; [exact Hen|intro; reflexivity]|apply textual_nil]).
-    set (attrs := R "class=""" ++ n ++ R """ id=""" ++ (R "s" ++ dec (lx_count e)) ++ R """").
+    set (attrs := R "class=""" ++ n ++ R """ id=""" ++ gid ++ R """").
     assert (Hattrs : no_c 62 attrs = true /\ rest_slash attrs false = false).
     { unfold attrs. split.
-      - rewrite !no_c_app, (proj1 (is_hdr_no_gt n Hn)), dec_no_gt. reflexivity.
+      - rewrite !no_c_app, (proj1 (is_hdr_no_gt n Hn)), Hgid. reflexivity.
       - rewrite !app_assoc. apply no_c_snoc_quote. }
-    set (c1 := R "<h" ++ L ++ R " class=""" ++ n ++ R """ id=""" ++ (R "s" ++ dec (lx_count e)) ++ R """>" ++ num).
+    set (c1 := R "<h" ++ L ++ R " class=""" ++ n ++ R """ id=""" ++ gid ++ R """>" ++ num).
     assert (Hc1 : forall stk, run c1 (Txt, stk) = (Txt, hname L :: stk)).
     { intro stk. unfold c1.
-      replace (R "<h" ++ L ++ R " class=""" ++ n ++ R """ id=""" ++ (R "s" ++ dec (lx_count e)) ++ R """>" ++ num)
+      replace (R "<h" ++ L ++ R " class=""" ++ n ++ R """ id=""" ++ gid ++ R """>" ++ num)
         with ((R "<h" ++ L ++ R " " ++ attrs ++ R ">") ++ num) by (unfold attrs; rewrite <- !app_assoc; reflexivity).
       rewrite run_app, (run_header_open L attrs (level_str_ok _ _) (proj1 Hattrs) (proj2 Hattrs)). apply Hnum. }
     clearbody c1.
@@ -153,7 +167,7 @@ Proof. intros Hn Hmac Harg Hc (HP & Hok & Hcnt). pose proof HP as (HS & Hsb & Hp
     assert (F8 : s8 ~= s7) by (unfold s8; eapply eqf_trans; apply w_eqf).
     assert (Hsi8 : sinline s8 = []) by (unfold s8; change (sinline (w title (w c1 s7))) with (let '(_, _, _, (_, _, si, _)) := view (w title (w c1 s7)) in si); rewrite !view_w; exact Hsi7).
     assert (Ecl : close_unclosed_inline s8 = s8) by (unfold close_unclosed_inline; rewrite Hsi8; reflexivity). rewrite Ecl.
-    unfold end_header. rewrite (fmt_eqf _ _ F8), (sd_fmt _ _ _ HS7). unfold X.end_header.
+    unfold end_header. rewrite (fmt_eqf _ _ F8), (sd_fmt _ _ _ _ HS7). unfold X.end_header.
     rewrite (eqf_get toc _ _ (fun _ => eq_refl) F8). fold L.
     set (c3 := R "</h" ++ L ++ R ">" ++ NLs).
     set (sf := w c3 s8).
@@ -161,34 +175,34 @@ Proof. intros Hn Hmac Harg Hc (HP & Hok & Hcnt). pose proof HP as (HS & Hsb & Hp
     assert (Hkf : KS sf = K3) by (unfold KS; rewrite (eqf_get toc _ _ (fun _ => eq_refl) Ff), (eqf_get lox_toc _ _ (fun _ => eq_refl) Ff), Ht7, Hl7; reflexivity).
     split; [|rewrite (eqf_get lox_toc _ _ (fun _ => eq_refl) Ff); exact Hl7].
     split; [rewrite Hkf|].
-    + split; [apply (Side_eqf _ _ _ _ Ff HS7)|]. split; [rewrite (eqf_get sblock _ _ (fun _ => eq_refl) Ff); exact Hsb7|].
+    + split; [apply (Side_eqf _ _ _ _ _ Ff HS7)|]. split; [rewrite (eqf_get sblock _ _ (fun _ => eq_refl) Ff); exact Hsb7|].
       split; [rewrite (eqf_get process _ _ (fun _ => eq_refl) Ff); exact Hpr7|]. intros _.
       apply (Inv_step s7 _ (c1 ++ title ++ c3) HI7).
       * unfold sf, s8. rewrite !out_w; [rewrite <- !app_assoc; reflexivity|intros _; exact Hb7|apply bufc_w; intros _; exact Hb7|apply bufc_w, bufc_w; intros _; exact Hb7].
       * unfold elems, sf, s8. rewrite !view_w, !run_app, Hc1, Ht. apply (run_header_close L (level_str_ok _ _)).
       * unfold sf, s8. apply bufc_w, bufc_w, bufc_w. intros _. exact Hb7.
-      * rewrite (fmt_eqf _ _ Ff). exact (sd_fmt _ _ _ HS7).
+      * rewrite (fmt_eqf _ _ Ff). exact (sd_fmt _ _ _ _ HS7).
     + rewrite (eqf_get lox_toc _ _ (fun _ => eq_refl) Ff), (eqf_get toc _ _ (fun _ => eq_refl) Ff), Hl7, Hh7. split; [exact Hok|]. cbn [plus] in Hcnt. clear -Hcnt. lia.
 Qed.
 
 (* the header of pass 1: counters, label, the entry for the tables of contents *)
-Lemma header_ref_shape K s : Side K s -> header_reference s = R "#s" ++ dec (hcount (toc s)).
-Proof. intro HS. unfold header_reference. rewrite (sd_fmt _ _ _ HS). unfold X.header_reference.
-  assert (Hmulti : X.multi s = false) by exact (proj1 (Side_multi _ _ _ HS)).
-  assert (Hcust : X.custom_ids s = false) by (unfold X.custom_ids; rewrite (sd_pa _ _ _ HS); reflexivity).
+Lemma header_ref_shape K s : Side K s -> MD <> 2%nat -> header_reference s = R "#s" ++ dec (hcount (toc s)).
+Proof. intros HS Hmd. unfold header_reference. rewrite (sd_fmt _ _ _ _ HS). unfold X.header_reference.
+  assert (Hmulti : X.multi s = false) by (rewrite (proj1 (Side_multi _ _ _ _ HS)); apply Nat.eqb_neq; exact Hmd).
+  assert (Hcust : X.custom_ids s = false) by (unfold X.custom_ids; rewrite (sd_pa _ _ _ _ HS); reflexivity).
   rewrite Hcust, Hmulti. cbn [negb]. unfold X.gen_ref_s. rewrite Hmulti. cbn [negb].
   destruct (_ || _); reflexivity. Qed.
 
 Lemma macro_header_pass1 N rest s n a l : is_hdr n = true -> macro s = n -> args s = a -> has_cur s = true ->
   Q false N (BMacro n a l :: rest) s -> Q false N rest (macro_header pim s) /\
   (lox_toc (macro_header pim s) = lox_toc s \/
-   exists e, lox_toc (macro_header pim s) = lox_toc s ++ [e] /\ lx_count e = S (List.length (lox_toc s)) /\ lx_ref e = R "#s" ++ dec (lx_count e)).
+   exists e, lox_toc (macro_header pim s) = lox_toc s ++ [e] /\ lx_count e = S (List.length (lox_toc s)) /\ (MD <> 2%nat -> lx_ref e = R "#s" ++ dec (lx_count e))).
 Proof. intros Hn Hmac Harg Hc (HP & Hok & Hlen & Hcnt). pose proof HP as (HS & Hsb & Hpr & _).
   unfold macro_header.
   pose proof (hdr_args_agree _ _ s a HP) as Hagree.
   pose proof (parse_opts_eqd specOptHeader (args s) s) as E1. rewrite <- Harg in Hagree.
   destruct (parse_opts specOptHeader (args s) s) as [o s1]. cbn [fst snd] in *.
-  pose proof (P_eqd _ _ _ _ _ E1 HP) as HP1.
+  pose proof (P_eqd _ _ _ _ _ _ E1 HP) as HP1.
   assert (Hm1 : macro s1 = n) by (rewrite (eqd_get macro _ _ (fun _ => eq_refl) E1); exact Hmac).
   assert (Hpr1 : process s1 = false) by (apply HP1). rewrite Hpr1, Hm1.
   rewrite hdr_count_cons in Hcnt. cbn [hdr_block] in Hcnt. rewrite Hn in Hcnt. cbn [andb] in Hcnt. unfold has_hdr_args in Hcnt. rewrite Harg in Hagree. rewrite <- Hagree in Hcnt.
@@ -216,13 +230,13 @@ Proof. intros Hn Hmac Harg Hc (HP & Hok & Hlen & Hcnt). pose proof HP as (HS & H
     assert (Hm3 : macro s3 = n) by (unfold s3; destruct (str_eqb n (R "Pt")); [|destruct (str_eqb n (R "Ch"))]; exact Hm1).
     clearbody s3.
     pose proof (opt_text_eqd "id" o s3) as E4. destruct (opt_text "id" o s3) as [id s4]. cbn [snd] in E4.
-    pose proof (P_eqd _ _ _ _ _ E4 HP3) as HP4.
+    pose proof (P_eqd _ _ _ _ _ _ E4 HP3) as HP4.
     set (s6 := if str_eqb n (R "Ch") || str_eqb n (R "Pt") then s4 <| cidx := id |> <| cid := id |> else s4 <| cidx := id |>).
     assert (HP6 : P (T3, lox_toc s) false s6 /\ has_cur s6 = true /\ macro s6 = n).
     { assert (Hc4 : has_cur s4 = true) by (rewrite (eqd_get has_cur _ _ (fun _ => eq_refl) E4); exact Hc3).
       assert (Hm4 : macro s4 = n) by (rewrite (eqd_get macro _ _ (fun _ => eq_refl) E4); exact Hm3).
       unfold s6. destruct (str_eqb n (R "Ch") || str_eqb n (R "Pt")); (split; [|split; [exact Hc4|exact Hm4]]);
-      (eapply (P_change _ _ false s4); [exact HP4|apply (Side_change _ _ s4 _ (proj1 HP4)); try reflexivity; [exact (sd_toc _ _ _ (proj1 HP4))|exact (sd_lox _ _ _ (proj1 HP4))]|reflexivity..]). }
+      (eapply (P_change _ _ false s4); [exact HP4|apply (Side_change _ _ s4 _ (proj1 HP4)); try reflexivity; [exact (sd_toc _ _ _ _ (proj1 HP4))|exact (sd_lox _ _ _ _ (proj1 HP4))]|reflexivity..]). }
     destruct HP6 as (HP6 & Hc6 & Hm6).
     change (let s5 := s4 <| cidx := id |> in
             let s6 := if str_eqb n (R "Ch") || str_eqb n (R "Pt") then s5 <| cid := id |> else s5 in _)
@@ -233,30 +247,33 @@ Proof. intros Hn Hmac Harg Hc (HP & Hok & Hlen & Hcnt). pose proof HP as (HS & H
             let s9 := s8 <| lox_toc ::= fun l => l ++ [e] |> in
             if str_eqb n (R "Pt") || str_eqb n (R "Ch") then s9 <| lox_nav ::= fun l => l ++ [e] |> else s9).
     clearbody s6. cbv zeta.
-    pose proof (header_ref_shape _ s6 (proj1 HP6)) as Eref.
+    pose proof (header_ref_shape _ s6 (proj1 HP6)) as Eref. pose proof (header_ref_no_gt _ _ _ s6 (proj1 HP6)) as Hrgt.
     set (ref := header_reference s6) in *. set (num := header_num (toc s6) n nonum).
     set (s7 := match id with [] => s6 | _ => store_id id (mkId ref num 5) s6 end).
     assert (F7 : s7 ~= s6) by (unfold s7; destruct id; [apply eqf_refl|apply store_id_eqf]).
-    pose proof (Side_eqf _ _ _ _ F7 (proj1 HP6)) as HS7.
+    pose proof (Side_eqf _ _ _ _ _ F7 (proj1 HP6)) as HS7.
     assert (Hc7 : has_cur s7 = true) by (rewrite (eqf_get has_cur _ _ (fun _ => eq_refl) F7); exact Hc6).
-    destruct (pim_spec (a0 :: al) s7 (sd_fmt _ _ _ HS7) (sd_asis _ _ _ HS7) (sd_inl _ _ _ HS7) (sd_mk _ _ _ HS7) (sd_bf _ _ _ HS7) Hc7) as (Ht & F8 & _ & _ & _).
+    destruct (pim_spec (a0 :: al) s7 (sd_fmt _ _ _ _ HS7) (sd_asis _ _ _ _ HS7) (sd_inl _ _ _ _ HS7) (sd_mk _ _ _ _ HS7) (sd_bf _ _ _ _ HS7) Hc7) as (Ht & F8 & _ & _ & _).
     destruct (pim (a0 :: al) s7) as [title s8]. cbn [fst snd] in *.
     assert (F86 : s8 ~= s6) by (eapply eqf_trans; [exact F8|exact F7]).
-    pose proof (Side_eqf _ _ _ _ F86 (proj1 HP6)) as HS8.
+    pose proof (Side_eqf _ _ _ _ _ F86 (proj1 HP6)) as HS8.
     set (e := mkLox (hcount (toc s8)) n nonum num ref (R "s") title id).
     assert (Hoke : entry_ok e).
     { split; cbn [lx_ref lx_title lx_num e].
-      - rewrite Eref, no_c_app, dec_no_gt. reflexivity.
+      - exact Hrgt.
       - exact Ht.
       - apply header_num_textual. }
     set (sf := if str_eqb n (R "Pt") || str_eqb n (R "Ch") then s8 <| lox_toc ::= fun l => l ++ [e] |> <| lox_nav ::= fun l => l ++ [e] |> else s8 <| lox_toc ::= fun l => l ++ [e] |>).
     assert (Htf : toc sf = T3 /\ lox_toc sf = lox_toc s ++ [e] /\ sblock sf = sblock s8 /\ process sf = process s8 /\ Side (T3, lox_toc s ++ [e]) sf).
-    { unfold sf. destruct (str_eqb n (R "Pt") || str_eqb n (R "Ch")); cbn; rewrite (sd_toc _ _ _ HS8), (sd_lox _ _ _ HS8); cbn [fst snd];
+    { unfold sf. destruct (str_eqb n (R "Pt") || str_eqb n (R "Ch")); cbn; rewrite (sd_toc _ _ _ _ HS8), (sd_lox _ _ _ _ HS8); cbn [fst snd];
       (split; [reflexivity|split; [reflexivity|split; [reflexivity|split; [reflexivity|]]]]);
-      (apply (Side_change _ (T3, lox_toc s ++ [e]) s8 _ HS8); try reflexivity; cbn; [exact (sd_toc _ _ _ HS8)|rewrite (sd_lox _ _ _ HS8); reflexivity]). }
+      (apply (Side_change_gen _ (T3, lox_toc s ++ [e]) BASE MD s8 _ HS8); try reflexivity; cbn;
+       [exact (sd_toc _ _ _ _ HS8)|rewrite (sd_lox _ _ _ _ HS8); reflexivity|exact (sd_files _ _ _ _ HS8)|exact (sd_nav _ _ _ _ HS8)
+       |first [exact (sd_lnav _ _ _ _ HS8) | apply Forall_app; split; [exact (sd_lnav _ _ _ _ HS8)|constructor; [exact Hrgt|constructor]]]]). }
     fold sf. destruct Htf as (Htf & Hlf & Hsbf & Hprf & HSf). clearbody sf.
-    assert (Hcount_e : lx_count e = S (List.length (lox_toc s)) /\ lx_ref e = R "#s" ++ dec (lx_count e)).
-    { cbn [lx_count lx_ref e]. rewrite Eref, (eqf_get toc _ _ (fun _ => eq_refl) F86). destruct (P_toc _ _ _ HP6) as [Ht6 _]. cbn [fst] in Ht6. rewrite Ht6, Hh3, Hlen. split; reflexivity. }
+    assert (Hcount_e : lx_count e = S (List.length (lox_toc s)) /\ (MD <> 2%nat -> lx_ref e = R "#s" ++ dec (lx_count e))).
+    { cbn [lx_count lx_ref e]. rewrite (eqf_get toc _ _ (fun _ => eq_refl) F86). destruct (P_toc _ _ _ HP6) as [Ht6 _]. cbn [fst] in Ht6. rewrite Ht6, Hh3, Hlen.
+      split; [reflexivity|]. intro Hmd. rewrite (Eref Hmd), Ht6, Hh3. reflexivity. }
     split; [|right; exists e; split; [exact Hlf|exact Hcount_e]].
     split; [|rewrite Hlf, Htf; split; [apply Forall_app; split; [exact Hok|constructor; [exact Hoke|constructor]]|]].
     + unfold KS. rewrite Htf, Hlf. split; [exact HSf|]. split; [rewrite Hsbf, (eqf_get sblock _ _ (fun _ => eq_refl) F86); apply HP6|].
@@ -276,18 +293,18 @@ Proof. intros Harg Hnm HQ. pose proof HQ as (HP & Hok & Hcnt). pose proof HP as 
   assert (Hcnt' : if p then (hcount (toc s) + hdr_count rest)%nat = List.length (lox_toc s)
                   else List.length (lox_toc s) = hcount (toc s) /\ (hcount (toc s) + hdr_count rest)%nat = N) by (rewrite hdr_count_cons in Hcnt; exact Hcnt).
   unfold macro_tc. rewrite Hpr. destruct p; cbn [negb]; [|split; [split; [exact HP|split; [exact Hok|exact Hcnt']]|reflexivity]].
-  rewrite (sd_fmt _ _ _ HS).
-  destruct (close_unclosed_inline_P _ _ _ HP) as [HP1 Hsi1].
+  rewrite (sd_fmt _ _ _ _ HS).
+  destruct (close_unclosed_inline_P _ _ _ _ HP) as [HP1 Hsi1].
   assert (Ha1 : args (close_unclosed_inline s) = a) by (unfold close_unclosed_inline; destruct (sinline s); exact Harg).
   set (s1 := close_unclosed_inline s) in *. clearbody s1.
   pose proof (parse_opts_eqd specOptTc (args s1) s1) as E2.
   assert (Hmini : flag "mini" (fst (parse_opts specOptTc (args s1) s1)) = false).
-  { rewrite Ha1. rewrite (parse_opts_iv specOptTc a s1 init_st); [exact Hnm|rewrite (sd_iv _ _ _ (proj1 HP1)); reflexivity]. }
+  { rewrite Ha1. rewrite (parse_opts_iv specOptTc a s1 init_st); [exact Hnm|rewrite (sd_iv _ _ _ _ (proj1 HP1)); reflexivity]. }
   destruct (parse_opts specOptTc (args s1) s1) as [o s2]. cbn [fst snd] in *.
   assert (E2' : useless o s2 ~~ s1) by (unfold useless; destruct (po_args o); [exact E2|eapply eqd_trans; [apply err_eqd|exact E2]]).
-  pose proof (P_eqd _ _ _ _ _ E2' HP1) as HP2.
+  pose proof (P_eqd _ _ _ _ _ _ E2' HP1) as HP2.
   assert (Hsi2 : sinline (useless o s2) = []) by (rewrite (eqd_get sinline _ _ (fun _ => eq_refl) E2'); exact Hsi1).
-  destruct (end_par_P _ _ _ HP2 Hsi2) as (HP3 & Hp3 & Hsi3 & F3). cbv zeta in HP3, Hp3, Hsi3, F3.
+  destruct (end_par_P _ _ _ _ HP2 Hsi2) as (HP3 & Hp3 & Hsi3 & F3). cbv zeta in HP3, Hp3, Hsi3, F3.
   set (s3 := end_par PNormal (useless o s2)) in *. clearbody s3.
   pose proof HP3 as (HS3 & Hsb3 & Hpr3 & HI3). specialize (HI3 eq_refl).
   destruct (P_toc _ _ _ HP3) as [Ht3 Hl3]. cbn [fst snd KS] in Ht3, Hl3.
@@ -296,16 +313,16 @@ Proof. intros Harg Hnm HQ. pose proof HQ as (HP & Hok & Hcnt). pose proof HP as 
   assert (Hmini1 : flag "mini" o1 = false) by (unfold o1; destruct (Nat.eqb n 0); [unfold flag in *; cbn [po_flags existsb]; rewrite Hmini; reflexivity|exact Hmini]).
   (* whatever is written is a balanced chunk, the rest of the state is kept up to diagnostics *)
   assert (Hres : exists c sx, table_of_contents o1 s3 = wl c sx /\ sx ~~ s3 /\ balanced_chunk (flat c)).
-  { unfold table_of_contents. rewrite (sd_fmt _ _ _ HS3). unfold X.table_of_contents.
+  { unfold table_of_contents. rewrite (sd_fmt _ _ _ _ HS3). unfold X.table_of_contents.
     destruct (flag "toc" o1).
     - unfold X.write_toc. pose proof (toc_string_nomini_eqd X.DXhtml o1 s3 Hmini1) as Ets.
       assert (Hoks : Forall entry_ok (lox_toc s3)) by (rewrite Hl3; exact Hok).
-      assert (Hdt : textual (X.param "document-title" s3)) by (unfold X.param; rewrite (sd_pa _ _ _ HS3); apply textual_nil).
-      pose proof (fun t sx => toc_string_balanced X.DXhtml o1 s3 t sx (sd_fmt _ _ _ HS3) Hoks Hdt) as Hbal.
+      assert (Hdt : textual (X.param "document-title" s3)) by (unfold X.param; rewrite (sd_pa _ _ _ _ HS3); apply textual_nil).
+      pose proof (fun t sx => toc_string_balanced X.DXhtml o1 s3 t sx (sd_fmt _ _ _ _ HS3) Hoks Hdt) as Hbal.
       destruct (X.toc_string X.DXhtml o1 s3) as [[t|] sx]; cbn [snd] in Ets.
       + exists [t], sx. split; [reflexivity|]. split; [exact Ets|]. change (flat [t]) with (t ++ []). rewrite app_nil_r. apply (Hbal t sx eq_refl).
       + exists [], sx. split; [reflexivity|]. split; [exact Ets|intro; reflexivity].
-    - unfold X.xhtml_lox. rewrite (sd_lot _ _ _ HS3), (sd_lof _ _ _ HS3), (sd_lop _ _ _ HS3).
+    - unfold X.xhtml_lox. rewrite (sd_lot _ _ _ _ HS3), (sd_lof _ _ _ _ HS3), (sd_lop _ _ _ _ HS3).
       destruct (flag "lot" o1); [exists [], (err "warning:no LoX information found" s3); split; [reflexivity|split; [apply err_eqd|intro; reflexivity]]|].
       destruct (flag "lof" o1); [exists [], (err "warning:no LoX information found" s3); split; [reflexivity|split; [apply err_eqd|intro; reflexivity]]|].
       destruct (flag "lop" o1); [exists [], (err "warning:no LoX information found" s3); split; [reflexivity|split; [apply err_eqd|intro; reflexivity]]|].
@@ -313,19 +330,19 @@ Proof. intros Harg Hnm HQ. pose proof HQ as (HP & Hok & Hcnt). pose proof HP as 
   assert (Hfin : exists c sx, (if Nat.ltb 1 n then err "only one of the -toc, -lof and -lot options should bet set" s3 else table_of_contents o1 s3) = wl c sx /\ sx ~~ s3 /\ balanced_chunk (flat c)).
   { destruct (Nat.ltb 1 n); [exists [], (err "only one of the -toc, -lof and -lot options should bet set" s3); split; [reflexivity|split; [apply err_eqd|intro; reflexivity]]|exact Hres]. }
   destruct Hfin as (c & sx & -> & Ex & Hbc).
-  pose proof (P_eqd _ _ _ _ _ Ex HP3) as HPx. pose proof HPx as (HSx & Hsbx & Hprx & HIx). specialize (HIx eq_refl).
+  pose proof (P_eqd _ _ _ _ _ _ Ex HP3) as HPx. pose proof HPx as (HSx & Hsbx & Hprx & HIx). specialize (HIx eq_refl).
   assert (Ff : wl c sx ~= s3) by (eapply eqf_trans; [apply wl_eqf|apply eqd_eqf; exact Ex]).
   assert (Hk : KS (wl c sx) = KS s) by (unfold KS; rewrite (eqf_get toc _ _ (fun _ => eq_refl) Ff), (eqf_get lox_toc _ _ (fun _ => eq_refl) Ff), Ht3, Hl3; reflexivity).
   split; [|rewrite (eqf_get lox_toc _ _ (fun _ => eq_refl) Ff); exact Hl3].
   split; [rewrite Hk|rewrite (eqf_get lox_toc _ _ (fun _ => eq_refl) Ff), (eqf_get toc _ _ (fun _ => eq_refl) Ff), Hl3, Ht3; split; [exact Hok|exact Hcnt']].
-  split; [apply (Side_eqf _ _ _ _ Ff HS3)|]. split; [rewrite (eqf_get sblock _ _ (fun _ => eq_refl) Ff); exact Hsb3|].
+  split; [apply (Side_eqf _ _ _ _ _ Ff HS3)|]. split; [rewrite (eqf_get sblock _ _ (fun _ => eq_refl) Ff); exact Hsb3|].
   split; [rewrite (eqf_get process _ _ (fun _ => eq_refl) Ff); exact Hpr3|]. intros _.
   assert (Hbx : par sx = false -> buf sx = []) by (apply HIx).
   apply (Inv_step sx _ (flat c) HIx).
   - apply out_wl. exact Hbx.
   - unfold elems. rewrite view_wl. apply Hbc.
   - apply bufc_wl. exact Hbx.
-  - rewrite fmt_wl. exact (sd_fmt _ _ _ HSx).
+  - rewrite fmt_wl. exact (sd_fmt _ _ _ _ HSx).
 Qed.
 
 (* ---------- the dispatcher ---------- *)
@@ -335,13 +352,13 @@ Lemma Q_same p N rest s s' : KS s' = KS s -> P (KS s) p s' -> Q p N rest s -> Q 
 Proof. intros Hk HP' (_ & Hok & Hcnt). unfold KS in Hk. injection Hk as Ht Hl. split; [unfold KS; rewrite Ht, Hl; exact HP'|]. rewrite Hl, Ht. split; assumption. Qed.
 
 Definition grows (l l' : list lox) : Prop :=
-  l' = l \/ exists e, l' = l ++ [e] /\ lx_count e = S (List.length l) /\ lx_ref e = R "#s" ++ dec (lx_count e).
+  l' = l \/ exists e, l' = l ++ [e] /\ lx_count e = S (List.length l) /\ (MD <> 2%nat -> lx_ref e = R "#s" ++ dec (lx_count e)).
 Lemma step_fragH pb p N b rest c s : in_fragH b -> Q p N (b :: rest) s ->
   Q p N rest (snd (step pb b (c, s))) /\ grows (lox_toc s) (lox_toc (snd (step pb b (c, s)))).
 Proof. intros Hb HQ. destruct Hb as [Hb | [(n & a & l & -> & Hn) | (a & l & -> & Hnm)]].
   - (* not a header: counters and entries untouched *)
     pose proof HQ as (HP & Hok & Hcnt).
-    pose proof (step_frag (KS s) BASE pb p b c s Hb HP) as HP'.
+    pose proof (step_frag (KS s) BASE MD pb p b c s Hb HP) as HP'.
     destruct (P_toc _ _ _ HP') as [Ht Hl]. cbn [fst snd KS] in Ht, Hl.
     assert (Hk : KS (snd (step pb b (c, s))) = KS s) by (unfold KS; rewrite Ht, Hl; reflexivity).
     rewrite hdr_count_cons, (in_frag_not_hdr b Hb) in Hcnt. cbn [plus] in Hcnt.
@@ -350,12 +367,12 @@ Proof. intros Hb HQ. destruct Hb as [Hb | [(n & a & l & -> & Hn) | (a & l & -> &
   - (* a header *)
     unfold step. cbv zeta.
     pose proof HQ as (HP & Hok & Hcnt).
-    destruct (P_set_regs (KS s) BASE p (BMacro n a l) s HP) as [HP0 Hc0].
+    destruct (P_set_regs (KS s) BASE MD p (BMacro n a l) s HP) as [HP0 Hc0].
     assert (HQ0 : Q p N (BMacro n a l :: rest) (set_regs (BMacro n a l) s)) by (apply (Q_same p N _ s); [reflexivity|exact HP0|exact HQ]).
     set (s0 := set_regs (BMacro n a l) s) in *.
     pose proof HP0 as (HS0 & _).
-    rewrite (sd_if _ _ _ HS0), (sd_udef _ _ _ HS0). cbn [Nat.ltb Nat.leb]. rewrite (sd_inl _ _ _ HS0), (sd_um _ _ _ HS0). cbn [assoc].
-    assert (Ebf : bf_check n s0 = s0) by (unfold bf_check; rewrite (sd_bf _ _ _ HS0); reflexivity).
+    rewrite (sd_if _ _ _ _ HS0), (sd_udef _ _ _ _ HS0). cbn [Nat.ltb Nat.leb]. rewrite (sd_inl _ _ _ _ HS0), (sd_um _ _ _ _ HS0). cbn [assoc].
+    assert (Ebf : bf_check n s0 = s0) by (unfold bf_check; rewrite (sd_bf _ _ _ _ HS0); reflexivity).
     assert (Ecb : control_builtin pb n = None /\ builtin n = Some (macro_header pim)).
     { unfold is_hdr in Hn. repeat (apply orb_true_iff in Hn as [Hn|Hn]); apply FuelProofs.str_eqb_eq in Hn; subst n; split; reflexivity. }
     destruct Ecb as [-> ->]. cbn [snd]. rewrite Ebf.
@@ -372,12 +389,12 @@ Proof. intros Hb HQ. destruct Hb as [Hb | [(n & a & l & -> & Hn) | (a & l & -> &
   - (* a table of contents *)
     unfold step. cbv zeta.
     pose proof HQ as (HP & Hok & Hcnt).
-    destruct (P_set_regs (KS s) BASE p (BMacro (R "Tc") a l) s HP) as [HP0 Hc0].
+    destruct (P_set_regs (KS s) BASE MD p (BMacro (R "Tc") a l) s HP) as [HP0 Hc0].
     assert (HQ0 : Q p N (BMacro (R "Tc") a l :: rest) (set_regs (BMacro (R "Tc") a l) s)) by (apply (Q_same p N _ s); [reflexivity|exact HP0|exact HQ]).
     set (s0 := set_regs (BMacro (R "Tc") a l) s) in *.
     pose proof HP0 as (HS0 & _).
-    rewrite (sd_if _ _ _ HS0), (sd_udef _ _ _ HS0). cbn [Nat.ltb Nat.leb]. rewrite (sd_inl _ _ _ HS0), (sd_um _ _ _ HS0). cbn [assoc].
-    assert (Ebf : bf_check (R "Tc") s0 = s0) by (unfold bf_check; rewrite (sd_bf _ _ _ HS0); reflexivity).
+    rewrite (sd_if _ _ _ _ HS0), (sd_udef _ _ _ _ HS0). cbn [Nat.ltb Nat.leb]. rewrite (sd_inl _ _ _ _ HS0), (sd_um _ _ _ _ HS0). cbn [assoc].
+    assert (Ebf : bf_check (R "Tc") s0 = s0) by (unfold bf_check; rewrite (sd_bf _ _ _ _ HS0); reflexivity).
     change (control_builtin pb (R "Tc")) with (@None (cst -> cst)). change (builtin (R "Tc")) with (Some macro_tc). cbn [snd]. rewrite Ebf.
     assert (Harg : args s0 = a) by reflexivity.
     destruct (macro_tc_Q p N rest s0 a l Harg Hnm HQ0) as [HQ1 Hl01]. change (lox_toc s0) with (lox_toc s) in Hl01.
@@ -389,122 +406,174 @@ Proof. intros Hb HQ. destruct Hb as [Hb | [(n & a & l & -> & Hn) | (a & l & -> &
 Qed.
 
 (* the entries are numbered from 1 in the order of recording and refer to the anchor of their number *)
-Definition refs_ok (l : list lox) : Prop := forall i e, nth_error l i = Some e -> lx_count e = S i /\ lx_ref e = R "#s" ++ dec (S i).
+Definition refs_ok (l : list lox) : Prop := forall i e, nth_error l i = Some e -> lx_count e = S i /\ (MD <> 2%nat -> lx_ref e = R "#s" ++ dec (S i)).
 Lemma refs_ok_grows l l' : refs_ok l -> grows l l' -> refs_ok l'.
 Proof. intros Hr [-> | (e & -> & Hc & Hrf)]; [exact Hr|]. intros i x Hx.
   destruct (Nat.lt_ge_cases i (List.length l)) as [Hlt|Hge].
   - rewrite nth_error_app1 in Hx by exact Hlt. exact (Hr i x Hx).
   - rewrite nth_error_app2 in Hx by exact Hge. destruct (i - List.length l)%nat as [|k] eqn:Ek; [|destruct k; discriminate].
-    cbn in Hx. injection Hx as <-. assert (i = List.length l) by lia. subst i. rewrite Hrf, Hc. split; reflexivity. Qed.
+    cbn in Hx. injection Hx as <-. assert (i = List.length l) by lia. subst i. split; [exact Hc|]. intro Hmd. rewrite (Hrf Hmd), Hc. reflexivity. Qed.
 Theorem fragH_invariant p N : forall fuel bs cs, Forall in_fragH bs -> Q p N bs (snd cs) -> refs_ok (lox_toc (snd cs)) ->
   Q p N [] (snd (run_blocks (S fuel) bs cs)) /\ refs_ok (lox_toc (snd (run_blocks (S fuel) bs cs))).
 Proof. intros f bs cs Hbs. cbn [run_blocks]. revert cs. induction Hbs as [|b rest Hb Hrest IHb]; intros cs HQ Hr; [split; assumption|].
   cbn [walk]. destruct cs as [c s]. destruct (step_fragH (run_blocks f) p N b rest c s Hb HQ) as [H1 Hg].
-  rewrite (sd_np _ _ _ (proj1 (proj1 H1))). apply IHb; [exact H1|]. cbn [snd] in *.
+  rewrite (sd_np _ _ _ _ (proj1 (proj1 H1))). apply IHb; [exact H1|]. cbn [snd] in *.
   apply (refs_ok_grows _ _ Hr Hg). Qed.
+
+(* the table of contents written by Reset on the index page of a multi-file document *)
+Lemma write_toc_Q o N rest s : flag "mini" o = false -> Q true N rest s -> Q true N rest (X.write_toc o s) /\ lox_toc (X.write_toc o s) = lox_toc s.
+Proof. intros Hmini (HP & Hok & Hcnt). pose proof HP as (HS & Hsb & Hpr & HI). specialize (HI eq_refl).
+  destruct (P_toc _ _ _ HP) as [Ht3 Hl3]. cbn [fst snd KS] in Ht3, Hl3.
+  assert (Hres : exists c sx, X.write_toc o s = wl c sx /\ sx ~~ s /\ balanced_chunk (flat c)).
+  { unfold X.write_toc. pose proof (toc_string_nomini_eqd X.DXhtml o s Hmini) as Ets.
+    assert (Hdt : textual (X.param "document-title" s)) by (unfold X.param; rewrite (sd_pa _ _ _ _ HS); apply textual_nil).
+    pose proof (fun t sx => toc_string_balanced X.DXhtml o s t sx (sd_fmt _ _ _ _ HS) Hok Hdt) as Hbal.
+    destruct (X.toc_string X.DXhtml o s) as [[t|] sx]; cbn [snd] in Ets.
+    + exists [t], sx. split; [reflexivity|]. split; [exact Ets|]. change (flat [t]) with (t ++ []). rewrite app_nil_r. apply (Hbal t sx eq_refl).
+    + exists [], sx. split; [reflexivity|]. split; [exact Ets|intro; reflexivity]. }
+  destruct Hres as (c & sx & -> & Ex & Hbc).
+  pose proof (P_eqd _ _ _ _ _ _ Ex HP) as HPx. pose proof HPx as (HSx & Hsbx & Hprx & HIx). specialize (HIx eq_refl).
+  assert (Ff : wl c sx ~= s) by (eapply eqf_trans; [apply wl_eqf|apply eqd_eqf; exact Ex]).
+  assert (Hk : KS (wl c sx) = KS s) by (unfold KS; rewrite (eqf_get toc _ _ (fun _ => eq_refl) Ff), (eqf_get lox_toc _ _ (fun _ => eq_refl) Ff); reflexivity).
+  split; [|exact (eqf_get lox_toc _ _ (fun _ => eq_refl) Ff)].
+  split; [rewrite Hk|rewrite (eqf_get lox_toc _ _ (fun _ => eq_refl) Ff), (eqf_get toc _ _ (fun _ => eq_refl) Ff); split; [exact Hok|exact Hcnt]].
+  split; [apply (Side_eqf _ _ _ _ _ Ff HS)|]. split; [rewrite (eqf_get sblock _ _ (fun _ => eq_refl) Ff); exact Hsb|].
+  split; [rewrite (eqf_get process _ _ (fun _ => eq_refl) Ff); exact Hpr|]. intros _.
+  assert (Hbx : par sx = false -> buf sx = []) by (apply HIx).
+  apply (Inv_step sx _ (flat c) HIx).
+  - apply out_wl. exact Hbx.
+  - unfold elems. rewrite view_wl. apply Hbc.
+  - apply bufc_wl. exact Hbx.
+  - rewrite fmt_wl. exact (sd_fmt _ _ _ _ HSx).
+Qed.
 
 (* ---------- the two passes ---------- *)
 (* fragment mode (0): nothing around the body; standalone mode (1): the document header leaves <html><body> open, the
-   footer written by PostProcessing closes them *)
-Definition mode_base (md : nat) : Prop := (md = 0%nat /\ BASE = []) \/ (md = 1%nat /\ BASE = [R "body"; R "html"]).
-Definition default_params : list (str * str) := [(R "xhtml-index", R "full"); (R "lang", R "en")].
-Definition DH : str := Eval vm_compute in X.doc_header [] (init_st <| mode := 1%nat |>).
-Lemma doc_header_default s : params s = default_params -> mode s = 1%nat -> X.doc_header (X.param "document-title" s) s = DH.
-Proof. intros Hp Hm. unfold X.doc_header, X.common_header, lang, X.epub, X.epub3, X.param. rewrite Hp, Hm. vm_compute. reflexivity. Qed.
+   footer written by PostProcessing closes them; multi-file mode (2): the same for the index page and every part or chapter file *)
+Definition mode_base : Prop := (MD = 0%nat /\ BASE = []) \/ ((MD = 1%nat \/ MD = 2%nat) /\ BASE = [R "body"; R "html"]).
 Lemma title_page_default s : params s = default_params -> X.title_page s = s.
 Proof. intro Hp. unfold X.title_page. rewrite Hp. reflexivity. Qed.
-Lemma run_DH : run DH (Txt, []) = (Txt, [R "body"; R "html"]). Proof. vm_compute. reflexivity. Qed.
 Lemma run_footer : run X.doc_footer (Txt, [R "body"; R "html"]) = (Txt, []). Proof. vm_compute. reflexivity. Qed.
 
-Lemma Q_start md wd main bs : mode_base md -> Q false (hdr_count bs) bs (start_st (R "xhtml") md wd main).
+Lemma Q_start wd main bs : mode_base -> Q false (hdr_count bs) bs (start_st (R "xhtml") MD wd main).
 Proof. intro Hmb. split; [|split; [constructor|split; reflexivity]].
-  split; [split; try reflexivity; [exact markup_ok_nil|exact Hmb]|]. split; [constructor|]. split; [reflexivity|discriminate]. Qed.
+  split; [split; try reflexivity; [exact markup_ok_nil|split; [reflexivity|exact Hmb]|constructor|intro; reflexivity|constructor]|].
+  split; [constructor|]. split; [reflexivity|discriminate]. Qed.
+
+(* the start of pass 2 from any state that has the shape Reset leaves *)
+Lemma page_start r : Side (KS r) r -> BASE = [R "body"; R "html"] ->
+  sblock r = [] -> process r = true -> wout r = [] -> buf r = [] -> par r = false ->
+  P (KS r) true (wo (X.doc_header (X.param "document-title" r) r) r).
+Proof. intros HSr Hb Hsb Hpr Hw Hbuf Hpar. set (dh := X.doc_header (X.param "document-title" r) r).
+  assert (Hp : params r = default_params) by exact (sd_pa _ _ _ _ HSr).
+  assert (Hel : elems r = []) by (unfold elems, view, elems_v; rewrite Hsb, Hpar; reflexivity).
+  assert (Hdh : run dh (Txt, []) = (Txt, [R "body"; R "html"])).
+  { apply doc_header_run; [exact Hp|exact (proj2 (Side_multi _ _ _ _ HSr))|]. unfold X.param. rewrite Hp. intro; reflexivity. }
+  clearbody dh.
+  split; [apply (Side_change _ _ r _ HSr); reflexivity|]. split; [change (sblock (wo dh r)) with (sblock r); rewrite Hsb; constructor|]. split; [exact Hpr|]. intros _.
+  split; [|intros _; exact Hbuf|exact (sd_fmt _ _ _ _ HSr)].
+  change (out (wo dh r)) with (flat (dh :: wout r) ++ flat (buf r)). change (elems (wo dh r)) with (elems r).
+  rewrite Hw, Hbuf, Hel, flat_cons, flat_nil, !app_nil_r, Hb. exact Hdh.
+Qed.
 
 Lemma Q_reset_gen bs r : Side (KS r) r -> Forall entry_ok (lox_toc r) ->
   (hcount (toc r) + hdr_count bs)%nat = Datatypes.length (lox_toc r) ->
   sblock r = [] -> process r = true -> wout r = [] -> buf r = [] -> par r = false ->
   Q true (hdr_count bs) bs (exp_reset r) /\ lox_toc (exp_reset r) = lox_toc r.
 Proof. intros HSr Hok' Hcount Hsb Hpr Hw Hbuf Hpar.
-  pose proof (sd_fmt _ _ _ HSr) as Hf.
+  pose proof (sd_fmt _ _ _ _ HSr) as Hf.
   assert (Hel : elems r = []) by (unfold elems, view, elems_v; rewrite Hsb, Hpar; reflexivity).
+  assert (Hp : params r = default_params) by exact (sd_pa _ _ _ _ HSr).
   unfold exp_reset. rewrite Hf.
-  destruct (sd_mode _ _ _ HSr) as [[Hm Hb]|[Hm Hb]]; rewrite Hm.
+  destruct (sd_mode _ _ _ _ HSr) as [Hm Hmb]. rewrite Hm.
+  destruct Hmb as [[Hmd Hb]|[[Hmd | Hmd] Hb]]; rewrite Hmd.
   - split; [|reflexivity]. split; [|split; [exact Hok'|exact Hcount]].
     split; [exact HSr|]. split; [rewrite Hsb; constructor|]. split; [exact Hpr|]. intros _.
     split; [unfold out; rewrite Hw, Hbuf, Hel, Hb; reflexivity|intros _; exact Hbuf|exact Hf].
-  - assert (Hp : params r = default_params) by exact (sd_pa _ _ _ HSr).
-    rewrite (doc_header_default r Hp Hm). rewrite (title_page_default (wo DH r) Hp).
-    split; [|reflexivity]. split; [|split; [exact Hok'|exact Hcount]].
-    split; [apply (Side_change _ _ r _ HSr); reflexivity|]. split; [change (sblock (wo DH r)) with (sblock r); rewrite Hsb; constructor|]. split; [exact Hpr|]. intros _.
-    split; [|intros _; exact Hbuf|exact Hf].
-    change (out (wo DH r)) with (flat (DH :: wout r) ++ flat (buf r)). change (elems (wo DH r)) with (elems r).
-    rewrite Hw, Hbuf, Hel, flat_cons, flat_nil, !app_nil_r, Hb. exact run_DH.
+  - pose proof (page_start r HSr Hb Hsb Hpr Hw Hbuf Hpar) as HP.
+    rewrite (title_page_default (wo _ r) Hp).
+    split; [|reflexivity]. split; [exact HP|split; [exact Hok'|exact Hcount]].
+  - set (r' := r <| curfile := R "index.html" |>).
+    assert (HSr' : Side (KS r') r') by (apply (Side_change _ _ r _ HSr); reflexivity).
+    pose proof (page_start r' HSr' Hb Hsb Hpr Hw Hbuf Hpar) as HP.
+    change (X.param "document-title" r) with (X.param "document-title" r').
+    rewrite (title_page_default (wo _ r') Hp).
+    set (s1 := wo _ _) in *. clearbody s1.
+    assert (Hidx : X.param "xhtml-index" s1 = R "full") by (unfold X.param; rewrite (sd_pa _ _ _ _ (proj1 HP)); reflexivity).
+    rewrite Hidx. change (str_eqb (R "full") (R "full")) with true. cbv iota.
+    destruct (P_toc _ _ _ HP) as [Ht1 Hl1]. cbn [fst snd KS] in Ht1, Hl1.
+    assert (HQ1 : Q true (hdr_count bs) bs s1).
+    { split; [unfold KS; rewrite Ht1, Hl1; exact HP|]. rewrite Hl1, Ht1. split; [exact Hok'|exact Hcount]. }
+    destruct (write_toc_Q (mkPo [] [] []) _ bs s1 eq_refl HQ1) as [HQ2 Hl2]. split; [exact HQ2|]. rewrite Hl2. exact Hl1.
 Qed.
 Lemma Q_reset N bs s : Q false N [] s -> N = hdr_count bs ->
   Q true N bs (exp_reset (reset s)) /\ lox_toc (exp_reset (reset s)) = lox_toc s.
 Proof. intros ((HS & _) & Hok & Hlen & Hcnt) HN.
-  assert (Hf : fmt (reset s) = FX) by (unfold fmt; change (format (reset s)) with (format s); exact (sd_fmt _ _ _ HS)).
+  assert (Hf : fmt (reset s) = FX) by (unfold fmt; change (format (reset s)) with (format s); exact (sd_fmt _ _ _ _ HS)).
   assert (Hcount : (hcount (toc (reset s)) + hdr_count bs)%nat = Datatypes.length (lox_toc (reset s))).
   { change (lox_toc (reset s)) with (lox_toc s). change (hcount (toc (reset s))) with 0%nat. cbn [plus]. unfold hdr_count in *. cbn [filter List.length] in Hcnt. clear -Hlen Hcnt HN. lia. }
   assert (HSr : Side (KS (reset s)) (reset s)).
-  { split; try reflexivity; [exact (sd_mk _ _ _ HS)|exact (sd_dt _ _ _ HS)|exact Hf|exact (sd_mode _ _ _ HS)|exact (sd_pa _ _ _ HS)|exact (sd_lof _ _ _ HS)|exact (sd_lot _ _ _ HS)|exact (sd_lop _ _ _ HS)]. }
+  { split; try reflexivity; [exact (sd_mk _ _ _ _ HS)|exact (sd_dt _ _ _ _ HS)|exact Hf|exact (sd_mode _ _ _ _ HS)|exact (sd_pa _ _ _ _ HS)|exact (sd_lof _ _ _ _ HS)|exact (sd_lot _ _ _ _ HS)|exact (sd_lop _ _ _ _ HS)
+    |constructor|intro; reflexivity|exact (sd_lnav _ _ _ _ HS)]. }
   subst N. apply (Q_reset_gen bs (reset s) HSr Hok Hcount); reflexivity.
 Qed.
 
 Lemma refs_ok_nil : refs_ok []. Proof. intros [|i] e H; discriminate. Qed.
-Theorem C02_headers_balanced fuel md wd main bs : mode_base md -> Forall in_fragH bs ->
-  let s := snd (compile (S fuel) (R "xhtml") md wd main bs) in
+Theorem C02_headers_balanced fuel wd main bs : mode_base -> Forall in_fragH bs ->
+  let s := snd (compile (S fuel) (R "xhtml") MD wd main bs) in
   panicked s = None /\
-  run (flat (wout s)) (Txt, []) = (Txt, []) /\ In (curfile s, flat (wout s)) (files s) /\
+  run (flat (wout s)) (Txt, []) = (Txt, []) /\ In (curfile s, flat (wout s)) (files s) /\ Forall file_ok (files s) /\
   Forall entry_ok (lox_toc s) /\ refs_ok (lox_toc s).
 Proof. intros Hmb Hbs. unfold compile.
-  pose proof (fragH_invariant false (hdr_count bs) fuel bs (start_ctl wd main, start_st (R "xhtml") md wd main) Hbs (Q_start md wd main bs Hmb) refs_ok_nil) as [H1 R1].
-  destruct (run_blocks (S fuel) bs (start_ctl wd main, start_st (R "xhtml") md wd main)) as [c1 s1]. cbn [snd] in H1, R1.
-  rewrite (sd_np _ _ _ (proj1 (proj1 H1))).
+  pose proof (fragH_invariant false (hdr_count bs) fuel bs (start_ctl wd main, start_st (R "xhtml") MD wd main) Hbs (Q_start wd main bs Hmb) refs_ok_nil) as [H1 R1].
+  destruct (run_blocks (S fuel) bs (start_ctl wd main, start_st (R "xhtml") MD wd main)) as [c1 s1]. cbn [snd] in H1, R1.
+  rewrite (sd_np _ _ _ _ (proj1 (proj1 H1))).
   destruct (Q_reset _ bs s1 H1 eq_refl) as [HQ2 Elr].
   assert (R1' : refs_ok (lox_toc (snd (set_budget 0 false c1, exp_reset (reset s1))))) by (cbn [snd]; rewrite Elr; exact R1).
   destruct (fragH_invariant true (hdr_count bs) fuel bs (set_budget 0 false c1, exp_reset (reset s1)) Hbs HQ2 R1') as [H2' R2].
   clear R1' Elr HQ2.
   destruct (run_blocks (S fuel) bs (set_budget 0 false c1, exp_reset (reset s1))) as [c2 s2]. cbn [snd] in H2', R2.
   destruct H2' as (H2 & Hok2 & _).
-  rewrite (sd_np _ _ _ (proj1 H2)).
-  destruct (eof_sweep_P _ _ s2 H2) as (HS & HI & Hp & Hsb). cbv zeta in HS, HI, Hp, Hsb. set (s7 := eof_sweep s2) in *. clearbody s7.
-  assert (El7 : lox_toc s7 = lox_toc s2) by exact (sd_lox _ _ _ HS).
+  rewrite (sd_np _ _ _ _ (proj1 H2)).
+  destruct (eof_sweep_P _ _ _ s2 H2) as (HS & HI & Hp & Hsb). cbv zeta in HS, HI, Hp, Hsb. set (s7 := eof_sweep s2) in *. clearbody s7.
+  assert (El7 : lox_toc s7 = lox_toc s2) by exact (sd_lox _ _ _ _ HS).
   assert (A7 : run (flat (wout s7)) (Txt, []) = (Txt, BASE)).
   { destruct HI as [A B C]. unfold out in A. rewrite (B Hp), flat_nil, app_nil_r, (elems_closed _ Hsb Hp) in A. exact A. }
-  unfold exp_post. rewrite (sd_fmt _ _ _ HS).
-  destruct (sd_mode _ _ _ HS) as [[Hm Hb]|[Hm Hb]]; rewrite Hm.
-  - cbn [snd]. change (wout (s7 <| files ::= fun l => l ++ [(curfile s7, flat (wout s7))] |>)) with (wout s7).
-    change (lox_toc (s7 <| files ::= fun l => l ++ [(curfile s7, flat (wout s7))] |>)) with (lox_toc s7).
-    split; [exact (sd_np _ _ _ HS)|]. split; [rewrite A7; rewrite Hb; reflexivity|split; [|rewrite El7; split; [exact Hok2|exact R2]]].
-    change (files (s7 <| files ::= fun l => l ++ [(curfile s7, flat (wout s7))] |>)) with (files s7 ++ [(curfile s7, flat (wout s7))]).
-    apply in_or_app. right. left. reflexivity.
-  - set (s8 := wo X.doc_footer s7). cbn [snd]. change (wout (s8 <| files ::= fun l => l ++ [(curfile s8, flat (wout s8))] |>)) with (wout s8).
-    change (lox_toc (s8 <| files ::= fun l => l ++ [(curfile s8, flat (wout s8))] |>)) with (lox_toc s7).
-    change (panicked (s8 <| files ::= fun l => l ++ [(curfile s8, flat (wout s8))] |>)) with (panicked s7).
-    split; [exact (sd_np _ _ _ HS)|]. split; [|split; [|rewrite El7; split; [exact Hok2|exact R2]]].
-    + change (wout s8) with (X.doc_footer :: wout s7). rewrite flat_cons, run_app, A7, Hb. exact run_footer.
-    + change (files (s8 <| files ::= fun l => l ++ [(curfile s8, flat (wout s8))] |>)) with (files s7 ++ [(curfile s8, flat (wout s8))]).
-      apply in_or_app. right. left. reflexivity.
+  (* what PostProcessing appends closes the page *)
+  assert (Hpost : exists x, wout (exp_post s7) = x ++ wout s7 /\ run (flat x) (Txt, BASE) = (Txt, []) /\
+                   files (exp_post s7) = files s7 /\ curfile (exp_post s7) = curfile s7 /\ lox_toc (exp_post s7) = lox_toc s7 /\ panicked (exp_post s7) = panicked s7).
+  { unfold exp_post. rewrite (sd_fmt _ _ _ _ HS). destruct (sd_mode _ _ _ _ HS) as [Hm Hb]. rewrite Hm.
+    destruct Hb as [[Hmd Hb]|[[Hmd | Hmd] Hb]]; rewrite Hmd.
+    - exists []. rewrite Hb. repeat split; reflexivity.
+    - exists [X.doc_footer]. rewrite Hb. repeat split; reflexivity.
+    - pose proof (sd_nav _ _ _ _ HS) as Hnav. destruct (navtext s7) as [|c0 n0] eqn:En.
+      + exists [X.doc_footer]. rewrite Hb. repeat split; reflexivity.
+      + exists [X.doc_footer; c0 :: n0]. rewrite Hb. split; [reflexivity|]. split; [|repeat split; reflexivity].
+        change (flat [X.doc_footer; c0 :: n0]) with ((c0 :: n0) ++ (X.doc_footer ++ [])). rewrite app_nil_r, run_app, Hnav. exact run_footer. }
+  destruct Hpost as (x & Hw8 & Hx & Hf8 & Hc8 & Hl8 & Hp8). set (s8 := exp_post s7) in *. clearbody s8.
+  cbn [snd]. change (wout (s8 <| files ::= fun l => l ++ [(curfile s8, flat (wout s8))] |>)) with (wout s8).
+  change (lox_toc (s8 <| files ::= fun l => l ++ [(curfile s8, flat (wout s8))] |>)) with (lox_toc s8).
+  change (panicked (s8 <| files ::= fun l => l ++ [(curfile s8, flat (wout s8))] |>)) with (panicked s8).
+  change (files (s8 <| files ::= fun l => l ++ [(curfile s8, flat (wout s8))] |>)) with (files s8 ++ [(curfile s8, flat (wout s8))]).
+  change (curfile (s8 <| files ::= fun l => l ++ [(curfile s8, flat (wout s8))] |>)) with (curfile s8).
+  assert (A8 : run (flat (wout s8)) (Txt, []) = (Txt, [])) by (rewrite Hw8, flat_app, run_app, A7; exact Hx).
+  rewrite Hp8, Hl8, El7.
+  split; [exact (sd_np _ _ _ _ HS)|]. split; [exact A8|]. split; [apply in_or_app; right; left; reflexivity|].
+  split; [|split; [exact Hok2|exact R2]].
+  rewrite Hf8. apply Forall_app. split; [exact (sd_files _ _ _ _ HS)|]. constructor; [exact A8|constructor].
 Qed.
 End WithBase.
 
-(* the two output modes the theorem covers *)
-Theorem C02_headers_balanced_fragment fuel wd main bs : Forall in_fragH bs ->
-  let s := snd (compile (S fuel) (R "xhtml") 0 wd main bs) in
-  panicked s = None /\ run (flat (wout s)) (Txt, []) = (Txt, []) /\ In (curfile s, flat (wout s)) (files s) /\
-  Forall entry_ok (lox_toc s) /\ refs_ok (lox_toc s).
-Proof. apply (C02_headers_balanced [] fuel 0). left. split; reflexivity. Qed.
-Theorem C02_headers_balanced_standalone fuel wd main bs : Forall in_fragH bs ->
-  let s := snd (compile (S fuel) (R "xhtml") 1 wd main bs) in
-  panicked s = None /\ run (flat (wout s)) (Txt, []) = (Txt, []) /\ In (curfile s, flat (wout s)) (files s) /\
-  Forall entry_ok (lox_toc s) /\ refs_ok (lox_toc s).
-Proof. apply (C02_headers_balanced [R "body"; R "html"] fuel 1). right. split; reflexivity. Qed.
-Theorem C02_headers_balanced_modes fuel md wd main bs : md = 0%nat \/ md = 1%nat -> Forall in_fragH bs ->
+(* the output modes the theorem covers: every file written (the one current at the end included) is balanced *)
+Theorem C02_headers_balanced_modes fuel md wd main bs : md = 0%nat \/ md = 1%nat \/ md = 2%nat -> Forall in_fragH bs ->
   let s := snd (compile (S fuel) (R "xhtml") md wd main bs) in
-  panicked s = None /\ run (flat (wout s)) (Txt, []) = (Txt, []) /\ In (curfile s, flat (wout s)) (files s) /\
-  Forall entry_ok (lox_toc s) /\ refs_ok (lox_toc s).
-Proof. intros [-> | ->]; [apply C02_headers_balanced_fragment|apply C02_headers_balanced_standalone]. Qed.
+  panicked s = None /\ run (flat (wout s)) (Txt, []) = (Txt, []) /\ In (curfile s, flat (wout s)) (files s) /\ Forall file_ok (files s) /\
+  Forall entry_ok (lox_toc s) /\ refs_ok md (lox_toc s).
+Proof. intros [-> | [-> | ->]].
+  - apply (C02_headers_balanced [] 0 fuel). left. split; reflexivity.
+  - apply (C02_headers_balanced [R "body"; R "html"] 1 fuel). right. split; [left|]; reflexivity.
+  - apply (C02_headers_balanced [R "body"; R "html"] 2 fuel). right. split; [right|]; reflexivity.
+Qed.
 Print Assumptions C02_headers_balanced_modes.
 
 (* non-vacuity and agreement with computation on a concrete document *)
@@ -578,5 +647,11 @@ Proof. split; [|vm_compute; split; reflexivity].
 Example standalone_example :
   let s := compile_source (R "xhtml") 1 ex_world (R "m.frundis") in
   panicked s = None /\ run (flat (wout s)) (Txt, []) = (Txt, []) /\
-  firstn (List.length DH) (flat (wout s)) = DH /\ skipn (List.length (flat (wout s)) - List.length X.doc_footer) (flat (wout s)) = X.doc_footer.
+  skipn (List.length (flat (wout s)) - List.length X.doc_footer) (flat (wout s)) = X.doc_footer.
+Proof. vm_compute. repeat split; reflexivity. Qed.
+(* and as one file per chapter *)
+Example multifile_example :
+  let s := compile_source (R "xhtml") 2 ex_world (R "m.frundis") in
+  panicked s = None /\ map fst (files s) = [R "index.html"; R "body-0-01.html"] /\
+  map (fun f => run (snd f) (Txt, [])) (files s) = [(Txt, []); (Txt, [])].
 Proof. vm_compute. repeat split; reflexivity. Qed.
